@@ -15,6 +15,7 @@ pull *exact source spans* out of /repo on every run and splice contracts / ghost
   //@@   ret <name>                              S1: `-> T` becomes `-> (name: T)`
   //@@   rule D2|D5                              tolerant textual rules (see RULES below)
   //@@   replace <rule> `<old>` => `<new>`       exact, must match exactly once (fail closed)
+  //@@   replaceall <rule> `<old>` => `<new>`    exact, every occurrence, at least one (fail closed)
   //@@   cutarm [#k] `<pattern>` => `<expr>`     rule D7: the match arm whose pattern is <pattern> (white-space
                                                  insensitive, must match exactly one arm) keeps its pattern but its
                                                  body is replaced by <expr> — normally a call of an uninterpreted
@@ -200,7 +201,20 @@ def rule_D5m(body):
     return new_body, applied
 
 
-RULES = {"D2": rule_D2, "D5": rule_D5, "D5c": rule_D5c, "D5m": rule_D5m}
+def rule_D9(body):
+    """D9: `matches!(..) | matches!(..)` (non-short-circuit OR of two side-effect-free pattern tests, which Verus
+    does not support) is spelled `matches!(..) || matches!(..)`; same value.  Must match exactly once."""
+    m = mask(body)
+    hits = [mm for mm in re.finditer(r"\)(\s*)\|(\s*)matches!\(", m)]
+    hits = [h for h in hits if m[:h.start() + 1].rstrip().endswith(")") and "matches!(" in m[:h.start()]]
+    if len(hits) != 1:
+        raise LostAnchor(f"rule D9: `matches!(..) | matches!(..)` matched {len(hits)} times")
+    h = hits[0]
+    new = body[:h.start()] + ")" + h.group(1) + "||" + h.group(2) + "matches!(" + body[h.end():]
+    return new, [("D9", "matches!(..) | matches!(..)", "matches!(..) || matches!(..)")]
+
+
+RULES = {"D2": rule_D2, "D5": rule_D5, "D5c": rule_D5c, "D5m": rule_D5m, "D9": rule_D9}
 
 
 class FnUnit:
@@ -264,11 +278,11 @@ def parse_template(text):
                     setattr(fu, key, rest)
                 elif key == "rule":
                     fu.rules.append(rest)
-                elif key == "replace":
+                elif key in ("replace", "replaceall"):
                     mm = re.match(r"(\S+)\s+`(.*)`\s*=>\s*`(.*)`$", rest)
                     if not mm:
                         raise TemplateError(f"bad replace: {rest}")
-                    fu.replaces.append(mm.groups())
+                    fu.replaces.append(mm.groups() + (key == "replaceall",))
                 elif key == "cutarm":
                     mm = re.match(r"(?:#(\d+)\s+)?`(.*)`\s*=>\s*`(.*)`$", rest)
                     if not mm:
@@ -376,12 +390,12 @@ def build(template_path, repo_root):
                 body, applied = cut_arm(body, pattern, expr, ordinal)
                 drops += applied
             whole = sig + body
-            for rule, old, new in fu.replaces:
+            for rule, old, new, every in fu.replaces:
                 hits = find_all(whole, old)
-                if len(hits) != 1:
+                if (len(hits) != 1 and not every) or len(hits) == 0:
                     raise LostAnchor(f"{sp.where()} fn {fu.name}: rule {rule} text `{old}` matched {len(hits)} times")
                 whole = whole.replace(old, new)
-                drops.append((rule, old, new))
+                drops += [(rule, old, new)] * len(hits)
             sig, body = split_fn(whole)
             if fu.rename:
                 sig2 = re.sub(r"\bfn\s+" + re.escape(fu.name) + r"\b", "fn " + fu.rename, sig, count=1)
